@@ -14,10 +14,13 @@ RULE = (
     "cases: (a) every position to a depth bound and sampled deep positions for the parent/child/"
     "descendant algebra; (b) generate_pos for every depth to a bound; (c) every canonical tile filter of a "
     "depth-2 TOAST pyramid (thorough: all 2^20 accepted-sets) and every apex with every assignment of the "
-    "filter bits that can matter; (d) Hypothesis-generated (kind, depth<=5/6, filter, apex). Oracle: RefPyramid "
+    "filter bits that can matter; (d) Hypothesis-generated (kind, depth<=5/6, filter, apex); (e) the same decoded from "
+    "fuzzer bytes (atheris); (f) histories of 2-4 pyramids used one after another in one process (mostly the same depth "
+    "and apex with a different filter, kind or system), each judged on its own. Oracle: RefPyramid "
     "(reached / leaves / live / ops written from the documentation) compared with the enumerators, the three "
     "counters and the callbacks actually made by serial visit_leaves and walk. A case is non-trivial when its "
-    "filter has a gap (accepted tile with no accepted child) or rejects something, or its apex has n>=1; "
+    "filter has a gap (accepted tile with no accepted child) or rejects something, or its apex has n>=1; a history when "
+    "two different pyramids in it share depth and apex; "
     "for the algebra, when n>=2. distinct = distinct case fingerprints."
 )
 ASSUMPTIONS = [
@@ -354,6 +357,67 @@ def strat_pyramid(draw, tier):
     return case
 
 
+def exec_history(case):
+    """several pyramids used one after another in one process: each must behave as if it were the only one"""
+    cls, nt, seen = set(), False, {}
+    for k, spec in enumerate(case["pyramids"]):
+        kind, depth, fspec, apex = spec["kind"], spec["depth"], spec.get("filter"), spec.get("apex")
+        cs = spec.get("coordsys", "astronomical")
+        with toasty_call("pyramid", f"pyramid #{k + 1} of the history"):
+            try:
+                ref, vis, walked = compare_pyramid(kind, depth, fspec, apex, cs, routes=bool(spec.get("routes")))
+                if apex is not None:
+                    sub_vs_full(kind, depth, fspec, apex, cs, vis, walked)
+            except Violation as v:
+                raise Violation(v.clause, f"pyramid #{k + 1} of {len(case['pyramids'])} used in one process: {v.msg}")
+        key = (depth, tuple(apex) if apex is not None else None)
+        sig = (kind, canonical_filter(fspec), cs)
+        if key in seen and seen[key] != sig:
+            nt = True
+            cls.add("same-depth-and-apex-different-pyramid")
+        seen.setdefault(key, sig)
+        cls.add(kind)
+    cls.add(f"history-of-{len(case['pyramids'])}")
+    return Outcome(classes=sorted(cls), nontrivial=nt, count=len(case["pyramids"]))
+
+
+def canonical_filter(fspec):
+    import json
+
+    return json.dumps(fspec, sort_keys=True)
+
+
+@st.composite
+def strat_history(draw, tier):
+    first = draw(strat_pyramid("quick"))
+    if first["depth"] > 4:
+        first["depth"] = 4
+        if first["kind"] == "filtered":
+            first["filter"] = draw(gens.filter_specs(4))
+        if first.get("apex") is not None:
+            first["apex"] = draw(gens.apexes(4))
+            if first["apex"] is None:
+                first.pop("apex")
+    out = [first]
+    for _ in range(draw(st.integers(1, 3))):
+        if draw(st.integers(0, 3)) == 0:
+            nxt = draw(strat_pyramid("quick"))
+            if nxt["depth"] > 4:
+                continue
+        else:
+            # same depth and apex, another filter / kind / coordinate system
+            nxt = {"kind": draw(st.sampled_from(["filtered", "filtered", "filtered", "toast", "generic"])), "depth": first["depth"]}
+            if nxt["kind"] == "filtered":
+                nxt["filter"] = draw(gens.filter_specs(first["depth"]))
+            if nxt["kind"] != "generic":
+                nxt["coordsys"] = draw(st.sampled_from(["astronomical", "planetary"]))
+            if first.get("apex") is not None:
+                nxt["apex"] = first["apex"]
+        nxt["routes"] = draw(st.booleans())
+        out.append(nxt)
+    return {"pyramids": out}
+
+
 # depth-2 exhaustive filters -----------------------------------------------------
 
 L1 = [(1, 0, 0), (1, 1, 0), (1, 0, 1), (1, 1, 1)]
@@ -484,6 +548,15 @@ PARTS = [
         budget_s={"quick": 60, "thorough": 1500},
         engine="atheris (libFuzzer) coverage-guided, oracle inside the target",
         describe="coverage-guided fuzzing of toasty.pyramid / toasty.toast: bytes decoded to (kind, depth<=4, apex, filter); the RefPyramid oracle runs inside the fuzz target; empty starting corpus",
+    ),
+    Part(
+        "pyramid_histories",
+        exec_history,
+        strategy=strat_history,
+        examples={"quick": 600, "thorough": 30000},
+        shards={"quick": 8, "thorough": 16},
+        budget_s={"quick": 60, "thorough": 1200},
+        describe="2-4 pyramids (mostly the same depth and apex with different filters / kinds / systems) used one after another in one process, each judged against RefPyramid",
     ),
     Part(
         "random_pyramids",
